@@ -14,7 +14,7 @@ def strip(spec):
     return clean(spec)
 
 
-def run_sessions(run, specs, oracle=None, relevant=0xFF, model_verify=True, jobs=8, name=None, max_report=6, extra_terms=None):
+def run_sessions(run, specs, oracle=None, relevant=0xFF, model_verify=True, jobs=8, name=None, max_report=6, extra_terms=None, prover_relevant=0xFF):
     """Executes `specs`; calls oracle(run, spec, obs) for the property's direct checks; evaluates the Coq verifier model on every
     FM verification and reports disagreements on the `relevant` code bits.  Returns the observations."""
     name = name or run.prop.lower()
@@ -57,7 +57,7 @@ def run_sessions(run, specs, oracle=None, relevant=0xFF, model_verify=True, jobs
         m = meta[i]
         s, vi, j = m
         is_prover = isinstance(vi, str)
-        code_rel = code if is_prover else code & relevant
+        code_rel = (code & prover_relevant) if is_prover else (code & relevant)
         if not code_rel:
             continue
         nrep += 1
